@@ -293,8 +293,12 @@ def is_exp(span, kinds=("macro:",)):
 
 class Crate:
     def __init__(self, path):
+        from .canon import canonicalise_text
         with open(path) as f:
-            d = json.load(f)
+            text = f.read()
+        # repository types found by role are given the names the rule layer uses (see canon.py)
+        text, self.type_renames = canonicalise_text(text)
+        d = json.loads(text)
         self.path = path
         self.name = d["crate"]
         self.is_bin = d["is_bin"]
